@@ -496,8 +496,8 @@ def housekeeping() -> None:
 
 def _quiet_unraisable(unraisable, _default=__import__('sys').unraisablehook) -> None:
     """Subscription.__del__ of a *previous* universe finds its registry entry gone (we emptied the registry) and trips
-    over ``{}.discard``; that finalizer noise is irrelevant to the case at hand."""
-    if unraisable.exc_type is AttributeError and getattr(unraisable.object, '__qualname__', '') == 'Subscription.__del__':
+    over ``{}.discard`` (or runs while the stack is exhausted by a placeholder cycle); that finalizer noise is irrelevant."""
+    if unraisable.exc_type in (AttributeError, RecursionError) and getattr(unraisable.object, '__qualname__', '') == 'Subscription.__del__':
         return
     _default(unraisable)
 
